@@ -40,7 +40,7 @@ HETEROCYCLES = [
     'Oc1nc2ccccc2nc1O', 'Oc1ccnc(O)n1', 'O=c1cc[nH]c(=O)[nH]1', 'c1ccc2[nH]nnc2c1', 'c1ccc2nsnc2c1', 'c1ccc2nonc2c1', '[nH]1cccc1-c1ccccn1',
 ]
 CONFIG = {
-    'quick': {'shards': 16, 'budget_s': 150, 'n_corpus': 1600, 'k_renum': 2, 'max_forms': 40,
+    'quick': {'shards': 16, 'budget_s': 300, 'n_corpus': 1600, 'k_renum': 2, 'max_forms': 40,
               'floors': {'evaluations': 4000, 'distinct_nontrivial': 500, 'molecules': 800, 'kekule-forms.enumerated': 2500,
                          'renumbered.compared': 1500, 'clause.idempotence': 800, 'aromatic-spellings.compared': 2000,
                          'protonated.variants': 300, 'protonated.variants-two-or-more': 60, 'raw-kekule-inputs.thiele-compared': 150, 'raw-aromatic-inputs.forms-checked': 1500,
